@@ -13,14 +13,14 @@ G = {
  'VSET':   [r'values\.\(\*.*Value\)\.(Set|Clear|IsBoolFlag)', r'values\.IsBool'],
  'VENV':   [r'values\.(SetFromEnv|setMultivalued)'],
  'VTEXT':  [r'values\.(DefaultValue|\(\*.*Value\)\.(String|IsDefault))'],
- 'FLOW':   [r'flow\..*'],
+ 'FLOW':   [r'flow\..*', r'mow\.cli\.Exit'],
  'DECL':   [r'mow\.cli\.(mkOptStrs|validArgName|\(\*Cmd\)\.(mkOpt|mkArg))',
             r'mow\.cli\.\((Bool|String|Int|Float64|Strings|Ints|Floats64)(Opt|Arg)\)\.value',
-            r'mow\.cli\.\(\*Cmd\)\.(Bool|String|Int|Float64|Strings|Ints|Floats64)(Ptr)?',
+            r'mow\.cli\.\(\*Cmd\)\.(Bool|String|Int|Float64|Strings|Ints|Floats64)(Opt|Arg)?(Ptr)?', r'mow\.cli\.\(\*Cmd\)\.Var(Opt|Arg)', r'mow\.cli\.App',
             r'mow\.cli\.\(\*Cli\)\.Version', r'mow\.cli\.\(\*Cmd\)\.Command'],
  'INIT':   [r'mow\.cli\.\(\*Cmd\)\.doInit'],
  'ROUTE':  [r'mow\.cli\.\(\*Cmd\)\.(parse|getOptsAndArgs|helpIndex|isAlias|isFirstItemAmong|onError)', r'mow\.cli\.\(\*Cli\)\.(parse|Run)', r'lemma\.help.*'],
- 'HELP':   [r'mow\.cli\.(joinStrings|formatEnvVarsForHelp|formatOptNamesForHelp|printTabbedRow|\(\*Cmd\)\.printHelp)'],
+ 'HELP':   [r'mow\.cli\.(joinStrings|formatValueForHelp|formatEnvVarsForHelp|formatOptNamesForHelp|printTabbedRow|\(\*Cmd\)\.(printHelp|PrintHelp|PrintLongHelp))'],
  'SWEEP':  [r'sweep\..*'],
 }
 P = {
@@ -34,8 +34,8 @@ P = {
  'C08': 'LEX PARSE INIT ROUTE DECL',
  'C09': 'MATCH FSM FILL PARSE ROUTE',
  'C10': 'MATCH FSM PARSE VSET DECL ROUTE',
- 'C11': 'MATCH FSM',
- 'C12': 'MATCH FSM VENV VSET DECL',
+ 'C11': 'MATCH FSM PARSE',
+ 'C12': 'MATCH FSM PARSE VENV VSET DECL',
  'C13': 'VSET VENV FILL FSM MATCH DECL',
  'C14': 'ROUTE HELP INIT DECL',
  'C15': 'FILL FSM MATCH DECL INIT SWEEP',
